@@ -1,5 +1,6 @@
 import Flatland.JsonUtil
 import Flatland.C18
+import Flatland.C18Multi
 import Flatland.Run.C04
 open Lean Flatland.J
 namespace Flatland.Run.C18
@@ -86,25 +87,48 @@ def runJoined (j : Json) : Except String Json := do
       | .error e => .error (craiseName e)) excObj [] ops []
   return obj [("steps", Json.arr steps.toArray)]
 
-def parseMultiOp (name sep : List Char) (prune : Bool) (j : Json) : Except String MultiOp := do
+def parseSlice (j : Json) : Except String Flatland.PyList.Slice := do
+  return ⟨← optOf int (fldD j "start" Json.null), ← optOf int (fldD j "stop" Json.null), ← optOf int (fldD j "step" Json.null)⟩
+
+/-- MultiValue operations (`Flatland.C18.Multi.Op`); `insertfront` / `del` are the older spellings -/
+def parseMultiOp (name sep : List Char) (prune : Bool) (j : Json) : Except String Multi.Op := do
   match (← sfld j "op") with
   | "set" => return .set (← parseInput (← fld j "x"))
-  | "member" => return .member (← nfld j "i") (← parseNative (← fld j "x"))
-  | "append" => return .append (← parseNative (← fld j "x"))
-  | "insertfront" => return .insertFront (← parseNative (← fld j "x"))
-  | "del" => return .delete (← nfld j "i")
   | "setflat" => return .setFlat (← parsePairs (← fld j "pairs")) name sep prune
+  | "member" => return .member (← ifld j "i") (← parseNative (← fld j "x"))
+  | "append" => return .append (← parseNative (← fld j "x"))
+  | "insertfront" => return .insert 0 (← parseNative (← fld j "x"))
+  | "insert" => return .insert (← ifld j "i") (← parseNative (← fld j "x"))
+  | "extend" => return .extend (← listOf parseNative (← fld j "xs"))
+  | "setitem" => return .setItem (← ifld j "i") (← parseNative (← fld j "x"))
+  | "del" => return .delItem (← ifld j "i")
+  | "pop" => return .pop (← ifld j "i")
+  | "delslice" => return .delSlice (← parseSlice (← fld j "slice"))
+  | "writeu" => return .writeU (← cfld j "x")
+  | "writevalue" => return .writeValue (← parseNative (← fld j "x"))
   | o => throw s!"bad multi op {o}"
+
+def mraiseName : Multi.MRaise → String
+  | .indexError => "IndexError"
+  | .valueError => "ValueError"
+  | .c04 e => craiseName e
+
+/-- after every step: what the call returned, the scalar view read through the getters as written,
+    every member's (value, text), `is_empty`, `bool(mv)` -/
+def multiObs (s : MultiState) (ret : Option Bool) : Json :=
+  obj [("exc", Json.null), ("ret", retJson ret),
+       ("u", match Multi.getU s with | .ok u => ofText u | .error e => Json.str (mraiseName e)),
+       ("value", match Multi.getValue s with | .ok v => ofNative v | .error e => Json.str (mraiseName e)),
+       ("members", membersJson s), ("is_empty", Json.bool (Multi.isEmpty s)), ("truth", Json.bool (Multi.truth s))]
 
 def runMulti (j : Json) : Except String Json := do
   let E ← envOf j
   let k ← parseKind (← fld j "kind")
   let name ← cfld j "name"
   let ops ← (← afld j "ops").mapM (parseMultiOp name ['_'] (← bfld j "prune"))
-  let steps := runOps (fun (s : MultiState) o => match multiStep E k s o with
-      | .ok (s', ret) => .ok (s', obj [("exc", Json.null), ("ret", retJson ret), ("u", ofText (multiU s')),
-                                      ("value", ofNative (multiValue s')), ("members", membersJson s')])
-      | .error e => .error (craiseName e)) excObj [] ops []
+  let steps := runOps (fun (s : MultiState) o => match Multi.step E k s o with
+      | .ok (s', ret) => .ok (s', multiObs s' ret)
+      | .error e => .error (mraiseName e)) excObj [] ops []
   return obj [("steps", Json.arr steps.toArray)]
 
 def parseWritable (j : Json) : Except String Writable := do
